@@ -2304,12 +2304,18 @@ def x_vs_assert(eng, st, a):
 def x_vs_choose(eng, st, a):
     """fork into n paths returning 0..n-1"""
     n = a[0]
-    e = eng.fresh(st, 'choose', 32)
-    if type(e) is int:
-        st.choices.append(e % n if n else 0)
-        return e % n if n else 0
-    eng.assume(st, z3.ULT(e, n))
+    # the forks made by concretize() re-execute this call: they must meet the same symbol again, not a fresh one
+    key = ('choose-pending', len(st.frames), st.frames[-1].fn.name, st.frames[-1].ip)
+    e = st.ext.get(key)
+    if e is None:
+        e = eng.fresh(st, 'choose', 32)
+        if type(e) is int:
+            st.choices.append(e % n if n else 0)
+            return e % n if n else 0
+        eng.assume(st, z3.ULT(e, n))
+        st.ext[key] = e
     v = eng.concretize(st, e, 'vs_choose', cap=max(n + 1, eng.conc_cap))
+    st.ext.pop(key, None)
     return v
 
 
